@@ -360,6 +360,7 @@ func (c *Ctx) TLC(o TLCOpts) (*TLCResult, error) {
 	sc := bufio.NewScanner(stdout)
 	sc.Buffer(make([]byte, 1<<20), 1<<28)
 	inErr := false
+	pending := ""
 	for sc.Scan() {
 		line := sc.Text()
 		if out.Len() < 1<<22 {
@@ -388,8 +389,20 @@ func (c *Ctx) TLC(o TLCOpts) (*TLCResult, error) {
 			res.Errors = append(res.Errors, line)
 			continue
 		}
-		if isChatter(line) {
+		if pending == "" && isChatter(line) {
 			continue
+		}
+		// TLC pretty-prints long values over several lines: join until brackets balance
+		if pending != "" {
+			line = pending + " " + strings.TrimSpace(line)
+			pending = ""
+		}
+		if !balanced(line) {
+			pending = line
+			continue
+		}
+		if strings.HasPrefix(line, "<< ") {
+			line = "<<" + strings.TrimLeft(line[2:], " ")
 		}
 		res.Lines = append(res.Lines, line)
 		if o.OnLine != nil {
@@ -435,6 +448,38 @@ func (c *Ctx) MustTLC(o TLCOpts) *TLCResult {
 		Infra("tlc %s did not pass:\n%s\n%s", o.Module, strings.Join(r.Errors, "\n"), tail(r.Output, 40))
 	}
 	return r
+}
+
+// balanced reports whether every << [ { ( opened in s (outside string literals) is closed.
+func balanced(s string) bool {
+	depth := 0
+	inStr := false
+	for i := 0; i < len(s); i++ {
+		ch := s[i]
+		if inStr {
+			if ch == '\\' {
+				i++
+			} else if ch == '"' {
+				inStr = false
+			}
+			continue
+		}
+		switch {
+		case ch == '"':
+			inStr = true
+		case ch == '<' && i+1 < len(s) && s[i+1] == '<':
+			depth++
+			i++
+		case ch == '>' && i+1 < len(s) && s[i+1] == '>':
+			depth--
+			i++
+		case ch == '[' || ch == '{' || ch == '(':
+			depth++
+		case ch == ']' || ch == '}' || ch == ')':
+			depth--
+		}
+	}
+	return depth <= 0
 }
 
 func tail(s string, n int) string {
